@@ -75,6 +75,16 @@ CHECKS = {
         note="Trusted: Lean kernel, allowed axioms, extractor (go/types source importer), stream. Assumed: ties under the comparator render identically (key fields cover every printed field but document/private). Not modelled: scheduler, GC, watchdog race.",
         technique="Lean 4 proof (uniqueness of sorted permutations under arbitrary map order) + regenerated comparator/map-range tables + differential stream + repeated-process byte comparison",
     ),
+    "C06": dict(
+        category="proof",
+        text="Full for the lexer/row half, partial for the evaluator: Lean proves for all inputs that a comment-only line lexes exactly like a blank line (same token, same pending input), that a newline token "
+             "adds 1 to Row, that a string literal adds exactly its line breaks once (also under Skip, never again after Unget), that re-delivered tokens move no row, and row monotonicity; the token model "
+             "(rows included in every answer) is tied by the lex/tok streams. Whether the evaluators treat the extra newline token as neutral is checked end-to-end: blank / comment-only / whitespace lines at EVERY line "
+             "boundary of generated and eligible corpus programs, widened string literals, added/dropped final newline; outputs must be equal after the row shift.",
+        design="DESIGN.md §4 C06",
+        note="Trusted as C03 plus the end-to-end generator's reach. Known findings (known_findings.jsonl): row attribution of `recv.slice` without argument; a line inserted directly after an `in <pattern>` line.",
+        technique="Lean 4 proof (lexer/row-counter lemmas) + differential streams + metamorphic layout edits at every boundary",
+    ),
 }
 
 PENDING_REASON = "check not built yet in this session (see DESIGN.md §4 for the planned Lean model and theorem); not claimed until its check exists"
